@@ -97,10 +97,14 @@ CheckInit == [
   progRep |-> <<>>, progTaken |-> <<>>, appsAtStart |-> <<>> ]
 
 \* the wait in force: what the policy asked for and what has been armed / fired (C12)
+\* lines the environment (driver) writes, and lines of operations the machine blocks on until the driver completes them
+EnvKinds == {"tm.fire", "ctl.send", "ctl.drop", "clock", "crash", "restart", "cut", "end", "dropstream", "hang"}
+GatedKinds == {"http.uc", "http.ev", "http.ping", "pol.next", "pol.check", "pol.start", "pol.rbneeded", "pol.rballowed",
+               "inst.plan", "inst.install", "inst.reboot", "st.set", "st.rm", "st.commit"}
 WaitInit == [ph |-> "none", exp |-> <<>>, untilTid |-> 0, forTid |-> 0, untilFired |-> FALSE, forFired |-> FALSE]
 
 GhostInit == [
-  viol |-> {}, started |-> FALSE,
+  viol |-> {}, started |-> FALSE, opPend |-> FALSE,
   cup |-> FALSE, mode |-> "start", kid |-> 0, apps |-> <<>>, sys |-> "", os |-> "", invalid |-> FALSE,
   faulty |-> FALSE, dead |-> FALSE, panicked |-> FALSE,
   usedRids |-> {}, usedNonces |-> {}, usedSids |-> {},
@@ -698,9 +702,11 @@ StepPolCheck(g, e) ==
                   !.fails = IF g.failsUnk THEN e.ps.fails ELSE @, !.failsUnk = FALSE], vs)
 
 ExpTiming(e) ==
-  LET a == e.ans IN
-  [time |-> [w |-> IF a.kind \in {"wall", "both"} THEN Some([s |-> e.tw + a.dt, ns |-> 123456789]) ELSE None,
-             m |-> IF a.kind \in {"mono", "both"} THEN Some([s |-> e.tm + a.dt, ns |-> 0]) ELSE None],
+  LET a == e.ans
+      tw == IF Has(a, "abs") /\ IsSome(a.abs) THEN a.abs[1] ELSE e.tw + a.dt
+      tm == IF Has(a, "abs") /\ IsSome(a.abs) THEN a.abs[1] ELSE e.tm + a.dt IN
+  [time |-> [w |-> IF a.kind \in {"wall", "both"} THEN Some([s |-> tw, ns |-> 123456789]) ELSE None,
+             m |-> IF a.kind \in {"mono", "both"} THEN Some([s |-> tm, ns |-> 0]) ELSE None],
    minwait |-> IF Has(a, "mwms") /\ IsSome(a.mwms)
                  THEN Some([s |-> a.mwms[1] \div 1000, ns |-> (a.mwms[1] % 1000) * 1000000])
                ELSE IF IsSome(a.minwait) THEN Some([s |-> a.minwait[1], ns |-> 0]) ELSE None]
@@ -935,7 +941,21 @@ GhostStep(g, e) ==
       g0 == IF ga.pp \in {"announce", "persist"} /\ Interrupts(e)
               THEN V([ga EXCEPT !.pp = "none"], {<<"C07", "flow-continued-before-commit">>})
               ELSE ga
-  IN Transparent(GhostStep0(g0, e), e)
+      \* C13: once every timer of a wait has fired the machine has been woken and must act (ask the policy, ping)
+      \* before the environment does anything else; C12: a wait whose schedule was announced gets its timers
+      g1 == IF e.k \in EnvKinds /\ ~g0.opPend /\ ~g0.dead /\ g0.w.ph = "armed" /\ g0.w.untilFired
+                 /\ (g0.w.forTid = 0 \/ g0.w.forFired) /\ g0.ctlOut = {}
+              THEN V(g0, {<<"C13", "wait-over-nothing-happened">>})
+              ELSE IF g0.w.ph = "wantArm" /\ ~g0.dead /\ ~Neutral(e) /\ e.k # "tm.arm"
+                      /\ ~(e.k \in {"crash", "cut", "end", "dropstream", "ctl.nohandle", "tm.nofire"})
+                THEN V([g0 EXCEPT !.w.ph = "none"], {<<"C12", "timers-not-armed">>})
+              ELSE g0
+      g2 == Transparent(GhostStep0(g1, e), e)
+  IN [g2 EXCEPT !.w = IF e.k = "crash" THEN WaitInit ELSE @,
+                !.opPend = IF e.k \in GatedKinds THEN TRUE
+                           ELSE IF e.k \in {"crash", "restart", "cfg"} THEN FALSE
+                           ELSE IF e.k \in EnvKinds \cup {"ctl.reply"} THEN g2.opPend
+                           ELSE FALSE]
 
 Props == {"C02", "C03", "C04", "C05", "C06", "C07", "C08", "C09", "C10", "C11", "C12", "C13", "C14", "C18"}
 ViolOf(g, p) == {v \in g.viol : v[1] = p}
